@@ -219,7 +219,10 @@ def ltf_plan(**args):
         L_j = int(L_arr[j])
         L_arr[j] = L_j
         averages = int(round_half_up(((N - L_j) / (1 - olap)) / L_j + 1))
+        # There are only N - L_j + 1 distinct segment positions
+        averages = max(1, min(averages, N - L_j + 1))
         navg_arr.append(averages)
+        K_arr[j] = averages
 
         if averages == 1:
             shift = 1.0
@@ -337,6 +340,8 @@ def vectorized_ltf_plan(**args):
     r_map = fs / L_grid
     K_map = np.round((N - L_grid) / (xov * L_grid) + 1).astype(np.int64)
     L_map = L_grid.astype(np.int64)
+    # There are only N - L + 1 distinct segment positions
+    K_map = np.clip(K_map, 1, N - L_map + 1)
 
     # --- Phase 2: Walk the map ---
     f_out, r_out, L_out, K_out = [], [], [], []
@@ -471,6 +476,8 @@ def new_ltf_plan(**args):
     # --- 4. Finalize and Post-process (Vectorized) ---
     f, r, b, L, K = np.array(f), np.array(r), np.array(b), np.array(L), np.array(K)
     nf = len(f)
+    # There are only N - L + 1 distinct segment positions
+    K = np.clip(K, 1, N - L + 1)
     
     shift = np.divide(N - L, K - 1, out=np.zeros_like(f, dtype=float), where=K > 1)
     D = [np.round(np.arange(k) * s).astype(int) for k, s in zip(K, shift)]
